@@ -9,6 +9,14 @@ CHECKS = {
    text="Ring.tla models ring.Buffer at representation level (size, r, w, isEmpty, cells); TLC checks the FIFO/accounting invariants in every reachable representation state and the labelled state graph is replayed edge by edge on the real ring.Buffer with a position-stamped FIFO oracle; a second configuration uses the real constants at byte granularity.",
    note="Trusted: TLC, the Go toolchain, the scripted io.Reader/io.Writer alphabet. Exhaustive for sizes in 256-byte units up to 6400 bytes; boundary byte sizes to depth 3; larger histories by trace validation.",
    tech="TLA+ spec + TLC exhaustive; transition-cover replay of the TLC state graph into the real object; trace validation"),
+ "C10": dict(cat="model_checking", ref="DESIGN.md §4 C10, §3.3",
+   text="Elastic.tla composes the ring algorithms (RingOps) and the list algorithms (ListOps) into elastic.RingBuffer/elastic.Buffer with lazy pooled allocation and the static-limit switch-over; TLC checks ring cell content, lazy-return and count invariants exhaustively; every labelled edge is replayed on a real elastic.Buffer against a stamped-byte FIFO oracle.",
+   note="Trusted: TLC, Go toolchain, scripted reader/writer alphabet; the sync.Pool is primed so that lazy allocation is controlled (misses are counted and skipped). Writev with > 1024 segments is covered at connection level (C02).",
+   tech="TLA+ spec + TLC exhaustive; transition-cover replay of the TLC state graph into the real object"),
+ "C11": dict(cat="model_checking", ref="DESIGN.md §4 C11, §3.3",
+   text="LList.tla models linkedlist.Buffer as the list of segment lengths over FIFO-normal-form content; TLC checks no-empty-node / count invariants over all operation sequences within the bounds; every labelled edge is replayed on a real linkedlist.Buffer, including the copy semantics of PushBack/PushFront (the harness scribbles over its slice after the call).",
+   note="Trusted: TLC, Go toolchain, scripted reader/writer alphabet. Bounds: <= 4 segments, <= 12 units of 128 bytes, plus byte sizes around 512 to depth 3.",
+   tech="TLA+ spec + TLC exhaustive; transition-cover replay of the TLC state graph into the real object"),
 }
 NOT_YET = {}
 for i in range(1, 21):
